@@ -441,7 +441,9 @@ fn main() {
                     } else {
                         let d = dirs[rng.gen_range(0..dirs.len())];
                         let nm = hnames[rng.gen_range(0..hnames.len())];
-                        if d == "/" { format!("/{}", nm) } else { format!("{}/{}", d, nm) }
+                        let one = if d == "/" { format!("/{}", nm) } else { format!("{}/{}", d, nm) };
+                        // sometimes two new levels: a destination whose parent does not exist yet
+                        if rng.gen_bool(0.2) && one.matches('/').count() < 3 && !ents.iter().any(|e| e.0 == one) { format!("{}/{}", one, hnames[rng.gen_range(0..hnames.len())]) } else { one }
                     }
                 };
                 let (a, b) = (pick(&mut rng), pick(&mut rng));
@@ -590,7 +592,8 @@ fn main() {
     if !chains && !dangling {
         for (op, a) in [("mkfile", "a//b"), ("mkfile", "./b"), ("mkdir_p", "./a/./b/"), ("mkdir_p", "b/../a/a"), ("remove", "b/../a"), ("remove_all", "./a/"),
                         ("exists", "a/../b"), ("is_dir", "a/"), ("is_file", "./a/b"), ("read_all", "a//b"), ("abs", "a/./b/.."), ("readlink", "./a"), ("readlink_abs", "b/."),
-                        ("paths", "./a"), ("all_paths", "a/.."), ("entry", "./b"), ("mode", "b//")] {
+                        ("paths", "./a"), ("all_paths", "a/.."), ("entry", "./b"), ("mode", "b//"),
+                        ("paths", "/a/b/.."), ("all_paths", "/a/./"), ("dirs", "/b/../a"), ("files", "/a/b/../"), ("all_dirs", "/b/a/../.."), ("all_files", "/./a")] {
             calls.push(call(op, a, ""));
         }
         calls.push(call_d("write_all", "a/../b", b"y"));
